@@ -2,4 +2,5 @@ SPECIFICATION TSpec
 CONSTANTS
   MaxChunks = 1000000
   ApplyAsPinned = FALSE
+  EvalFnAsPinned = FALSE
 CHECK_DEADLOCK FALSE
